@@ -26,6 +26,7 @@ NegTimes == {-1, -2}      \* hash(-1) = hash(-2) in CPython: equal hashes, unequ
 
 Bad == 999
 Twin == 777      \* the float 1.0: equal to the valid value 1 but not an integer
+Inf == 888       \* the time float('inf'): a real number like any other
 XVals(c) == IF c = "UM" THEN {1, 2, Bad} ELSE {1, 2, Bad, Twin}
 Obj(c, f, x, t) == [cls |-> c, frozen |-> f, x |-> x, time |-> t]
 
@@ -84,7 +85,7 @@ Thaw == /\ ~Full
              /\ Record(Step("thaw", i, 0, "", 0, TRUE, Len(heap) + 1))
 
 SetAttr == \E i \in DOMAIN heap : \E a \in {"x", "time"} :
-           \E v \in (IF a = "x" THEN XVals(heap[i].cls) ELSE {1, 2, Bad}) :
+           \E v \in (IF a = "x" THEN XVals(heap[i].cls) ELSE {1, 2, Bad, Inf}) :
              LET ok == ~heap[i].frozen /\ (IF a = "x" THEN ValidX(heap[i].cls, v) ELSE TRUE) IN
              /\ heap' = IF ok THEN [heap EXCEPT ![i] = IF a = "x" THEN [@ EXCEPT !.x = v]
                                                         ELSE [@ EXCEPT !.time = v]]
